@@ -129,9 +129,17 @@ Tags(e) == e.blk \o (IF e.directed = 1 THEN ",directed" ELSE "")
            \o (IF IsolatedNode(e) THEN ",isolated_node" ELSE "")
            \o (IF e.n = 1 THEN ",single_node" ELSE "")
            \o (IF \A a \in 1..e.n : \A b \in 1..e.n : e.A[a][b] = 0 THEN ",edgeless" ELSE "")
+\* a measure is a function of the network alone: asking the same queries in the opposite order (on a
+\* fresh object) gives the same values
+\* (the eigenvector centralities come from an iterative solver with a random start vector: they are
+\* compared with their definition, under its tolerance, where the Perron vector is unique)
+Iterative == {"eigenvector_centrality", "nsi_eigenvector_centrality"}
+OrderDep(e) == {nm \in (DOMAIN e.f1 \cup DOMAIN e.f2) \ Iterative :
+                  ~(nm \in DOMAIN e.f1 /\ nm \in DOMAIN e.f2 /\ CloseSeq(e.f1[nm], e.f2[nm], 2))}
 Verdict(e) ==
   IF Unexpected(e) # {}
   THEN <<"REJECT", "Applicable", JoinSet({nm \o ":" \o e.x[nm] : nm \in Unexpected(e)}), Tags(e)>>
+  ELSE IF OrderDep(e) # {} THEN <<"REJECT", "OrderIndependent", JoinSet(OrderDep(e)), Tags(e)>>
   ELSE LET f == AllFail(Checks(e)) IN
        IF f # "" THEN <<"REJECT", "Def", f, Tags(e)>> ELSE <<"ACCEPT", "", "", Tags(e)>>
 
